@@ -88,6 +88,8 @@ def cases(tier, seed):
     for C, D in shapes:
         ws = c01._weights(C)
         ws = [ws[0], ws[len(ws) // 2], ws[-1]] if len(ws) > 3 else ws
+        if C >= 2:
+            ws = ws + [[0.625] + [0.0] * (C - 2) + [0.375]] if C > 2 else ws + [[1.0, 0.0]]  # a pruned component (weight exactly 0)
         rots = [(0, 0), (1, 2), (3, 4), (2, 1)] if tier == "quick" else [(i, j) for i in range(5) for j in range(5) if (i + 2 * j) % 3 == 0]
         for i, j in rots:
             for w in ws:
@@ -152,6 +154,8 @@ def run_case(case):
     c = Ctx()
     m, mu, var, floor, s, o = c01.build(case)
     C, D = case["C"], case["D"]
+    if case["j"] % 2 == 1:
+        m.mean_var_update_threshold = 0.05  # a training setting: the statistics must not depend on it
     X = np.array(_datasets(D, case["tier"])[case["data"]], dtype=float) * s + o
     n = len(X)
     tags = dict(floor=case["floor"])
